@@ -124,6 +124,9 @@ Inductive op :=
 | ONames                               (* decoration.RegisteredDecorationNames() *)
 | OStyles                              (* auto.ListStyles() *)
 | OSet (n : bytes)                     (* tt := texttable.Wrap(t); tt.SetDecorationNamed(n); tt.Render() *)
+| OAutoNew (n : bytes)                 (* tt := auto.New(n) for a dot-free n that names no sub-package: the same
+                                          selection through auto (Props/C19.v, c19_plain_is_set), the error is
+                                          dropped by auto; tt.Render() *)
 | ORender (k : nat)                    (* the k-th table this goroutine made: Render() again *)
 | OReSet (k : nat) (n : bytes)         (* the k-th table: SetDecorationNamed(n); Render() *)
 | OSetDec (k : nat) (d : decoration).  (* the k-th table: SetDecoration(d); Render() *)
@@ -162,6 +165,9 @@ Section Step.
     | OSet n =>
         let '(t1, err) := set_decoration_named (g_reg st) n text_wrap in
         (mkG (g_reg st) (upd (g_tabs st) g (g_tabs st g ++ [t1])), VSet err (text_render body t1))
+    | OAutoNew n =>
+        let '(t1, _) := set_decoration_named (g_reg st) n text_wrap in
+        (mkG (g_reg st) (upd (g_tabs st) g (g_tabs st g ++ [t1])), VRender (text_render body t1))
     | ORender k =>
         match nth_error (g_tabs st g) k with
         | Some t1 => (st, VRender (text_render body t1))
